@@ -19,7 +19,8 @@ RULE = ("derivations of the dialect grammar of DESIGN.md section 6 (entries incl
         "no backslash before a newline or another backslash, names without marks/whitespace/#/backslash, free text non-blank and not adjacent); "
         "entry keys, string keys and per-entry field keys pairwise distinct (repeated keys are C09's domain). "
         "Part 1: bounded-exhaustive over small alphabets by weighted token cost, smallest first (cost table grammar.COST: entry 1, other @blocks 2, "
-        "free text 1+atoms, key comma 1, piece 1, atom 1-2, non-empty whitespace slot 2, case variant 2, trailing comma 1). "
+        "free text 1+atoms, key comma 1, piece 1, atom 1-2, non-empty whitespace slot 2, case variant 2, trailing comma 1; whitespace units "
+        "space/LF/CRLF, hs units space/tab, value atoms a , = @ LF \\{ \\} \\\" \" and nested groups, 1..3 pieces per value, any number of fields/blocks). "
         "Part 2: seeded random derivations of growing size over rich alphabets. "
         "Each case runs Splitter(text).split() and parse_string(text, parse_stack=[]) and compares every block (class, lower-cased type, key, "
         "field keys/values in order, string key/value, preamble/comment text up to surrounding whitespace, then start line) with the derivation's truth. "
